@@ -323,11 +323,11 @@ Definition prepare_alter_columns (hooks : list (string * string)) (t : dict) (st
   do all_alter <- (if negb (truthy old) then Ok alter_columns else do o <- as_list old; Ok (o ++ alter_columns)%list);
   let alter' := dict_set alter "columns" (PList all_alter) in
   do cols <- as_list (tget t "columns");
+  do names <- col_names_normalized cols;          (* computed once, before the loop *)
   do cols' <- fold_left (fun acc c =>
                            do cs <- acc;
-                           do names <- col_names_normalized cs;
                            do n <- (do x <- col_get c "name"; normalize_name_v x);
-                           if mem n names then Ok cs else Ok (cs ++ [c])%list) all_alter (Ok cols);
+                           if mem n names then Ok cs else Ok (cs ++ [c])%list) alter_columns (Ok cols);
   Ok (dict_set (dict_set t "alter" (PDict alter')) "columns" (PList cols')).
 
 Fixpoint find_index {A} (f : A -> res bool) (l : list A) (i : nat) : res (option nat) :=
